@@ -288,6 +288,34 @@ def step_prologue(c):
     c.holds('counters_initialised', st['j'] == 0 and st['s'] == 1 and st['n'] == 1)
 
 
+def cache_coherence(c, op):
+    """'the cached log-density and gradient ALWAYS belong to the current point': representation invariant of the experimental NUTS re-established by every
+    public operation on an initialised sampler that has moved away from its initial point (bounded stand-in: native run)"""
+    import io, contextlib
+    from cuqi.distribution import Gaussian
+    from cuqi.experimental.mcmc import NUTS
+    seed = int(c.real('seed', lo=0, hi=10 ** 6)); np.random.seed(seed)
+    tgt = Gaussian(np.array([0.3, -0.2]), np.array([0.5, 1.2]), name='x')
+    s = NUTS(tgt, initial_point=np.array([c.real('x0'), c.real('x1')]), max_depth=3)
+    def coherent(tag):
+        x = np.asarray(s.current_point, dtype=float)
+        c.eq(f'{tag}:cached_log_density_belongs_to_the_current_point', s.current_target_logd, s.target.logd(x), tol=1e-10)
+        c.eq(f'{tag}:cached_gradient_belongs_to_the_current_point', s.current_target_grad, s.target.gradient(x), tol=1e-10)
+    with contextlib.redirect_stderr(io.StringIO()):
+        s.warmup(3); s.sample(2)
+        coherent('after_warmup_and_sampling')
+        x_before = np.asarray(s.current_point, dtype=float).copy()
+        if op == 'validate_target': s.validate_target()
+        elif op == 'reassign_same_target': s.target = s.target
+        elif op == 'state_roundtrip': s.set_state(s.get_state())
+        elif op == 'sample_zero': s.sample(0)
+        elif op == 'assign_new_target': s.target = Gaussian(np.array([-1.0, 0.7]), np.array([2.0, 0.3]), name='x')
+        c.eq(f'after_{op}:current_point_unchanged', np.asarray(s.current_point, dtype=float), x_before, tol=0)
+        coherent(f'after_{op}')
+        s.sample(1)
+        coherent(f'after_{op}_and_one_more_transition')
+
+
 def jobs(tier):
     J = []
     X = 'cuqi.experimental.mcmc._hmc:NUTS'; L = 'cuqi.sampler._hmc:NUTS'
@@ -302,6 +330,9 @@ def jobs(tier):
         J.append(Job(f'experimental.NUTS.step:loop_body:{"finite" if nf is None else nf}', lambda c, nf=nf: step_body(c, nf), 'Pinf', [f'{X}.step'], maxpaths=4096, timeout=900))
     J.append(Job('legacy.NUTS._sample:doubling_loop_body', legacy_step_body, 'Pinf', [f'{L}._sample'], maxpaths=4096, timeout=900))
     J.append(Job('experimental.NUTS.step:prologue', step_prologue, 'Pinf', [f'{X}.step', f'{X}._Kfun']))
+    for op in ('validate_target', 'reassign_same_target', 'state_roundtrip', 'sample_zero', 'assign_new_target'):
+        J.append(Job(f'experimental.NUTS:cache_coherence_under_public_operations:{op}', lambda c, op=op: cache_coherence(c, op), 'B',
+                     [f'{X}.validate_target', f'{X}._initialize', 'cuqi.experimental.mcmc._sampler:Sampler.target'], nnum=2))
     from contracts import C02 as _c02
     for iface, tag in (('exp', 'experimental'), ('leg', 'legacy')):
         J.append(Job(f'{tag}.NUTS:log_density_offset_invariance', lambda c, i=iface: _c02.offset_invariance(c, i, 'NUTS'), 'B', [f'{X}.step' if iface == 'exp' else f'{L}._sample'], nnum=2))
